@@ -1,12 +1,12 @@
 # Machinery self-test, not a property check: the QUIC stratum (quic-go + p2p/transport/quic + quicreuse, instrumented, over
 # simnet's UDP model with loss, duplication and reordering) must be deterministic and make progress. `./check selftest CQUIC`.
-from stack import FULL_STACK, FULL_DEPS, QUIC_STACK, QUIC_DEPS
+from stack import FULL_STACK, FULL_DEPS, QUIC_STACK, QUIC_DEPS, WT_STACK, WT_DEPS
 
 CLAIMED = False
 SPEC = dict(
     pkg="./harness/cquic",
-    instrument=FULL_STACK + QUIC_STACK,
-    deps=FULL_DEPS + QUIC_DEPS,
+    instrument=FULL_STACK + QUIC_STACK + WT_STACK,
+    deps=FULL_DEPS + QUIC_DEPS + WT_DEPS,
     level="self_test",
     level_text="machinery self-test of the QUIC stratum",
     level_note="",
